@@ -50,7 +50,7 @@ def harness_modules():
     return mods
 
 
-def make_scratch(root, patches=("anyhow", "hmac", "aes-gcm"), with_contracts=True, only_files=None):
+def make_scratch(root, patches=("anyhow", "hmac", "aes-gcm", "aes", "ctr"), with_contracts=True, only_files=None):
     """root: fresh directory. Returns path of the copied crate (root/repo)."""
     os.makedirs(root, exist_ok=True)
     dst = os.path.join(root, "repo")
